@@ -400,6 +400,7 @@ fn instantiate_struct_fields(
 
 fn collect_runtime_types(
     file: &anf::File,
+    goenv: &GlobalGoEnv,
 ) -> (IndexSet<tast::Ty>, IndexSet<tast::Ty>, IndexSet<tast::Ty>) {
     struct Collector {
         tuples: IndexSet<tast::Ty>,
@@ -411,11 +412,34 @@ fn collect_runtime_types(
         fn collect_file(
             mut self,
             file: &anf::File,
+            goenv: &GlobalGoEnv,
         ) -> (IndexSet<tast::Ty>, IndexSet<tast::Ty>, IndexSet<tast::Ty>) {
             for item in &file.toplevels {
                 self.collect_fn(item);
             }
+            self.collect_defs(goenv);
             (self.tuples, self.arrays, self.refs)
+        }
+
+        // A type that occurs only in an emitted type definition (a payload that is never
+        // built or taken apart) still needs its runtime definition.
+        fn collect_defs(&mut self, goenv: &GlobalGoEnv) {
+            for (name, def) in goenv.structs() {
+                if struct_def_is_emitted(name, def) {
+                    for (_, ty) in &def.fields {
+                        self.collect_type(ty);
+                    }
+                }
+            }
+            for (name, def) in goenv.enums() {
+                if enum_def_is_emitted(name, def) {
+                    for (_, fields) in &def.variants {
+                        for ty in fields {
+                            self.collect_type(ty);
+                        }
+                    }
+                }
+            }
         }
 
         fn collect_fn(&mut self, item: &anf::Fn) {
@@ -583,7 +607,7 @@ fn collect_runtime_types(
         arrays: IndexSet::new(),
         refs: IndexSet::new(),
     }
-    .collect_file(file)
+    .collect_file(file, goenv)
 }
 
 #[derive(Default)]
@@ -2253,7 +2277,7 @@ pub fn go_file(
     let goenv = GlobalGoEnv::from_anf_env(anfenv);
     let mut all = Vec::new();
 
-    let (tuple_types, array_types, ref_types) = collect_runtime_types(&file);
+    let (tuple_types, array_types, ref_types) = collect_runtime_types(&file, &goenv);
 
     all.extend(runtime::make_runtime());
     all.extend(runtime::make_array_runtime(&array_types));
@@ -2367,16 +2391,30 @@ pub fn go_file(
     (crate::go::dce::eliminate_dead_vars(file), goenv)
 }
 
+fn struct_def_is_emitted(name: &TastIdent, def: &StructDef) -> bool {
+    let has_type_param = name.0.contains("TParam")
+        || !def.generics.is_empty()
+        || def
+            .fields
+            .iter()
+            .any(|(_, ty)| matches!(ty, tast::Ty::TParam { .. }));
+    !has_type_param
+}
+
+fn enum_def_is_emitted(name: &TastIdent, def: &EnumDef) -> bool {
+    // Generic-specialized enums whose fields still contain type parameters get no Go types
+    let has_type_param = name.0.contains("TParam")
+        || def
+            .variants
+            .iter()
+            .any(|(_, fields)| fields.iter().any(|f| matches!(f, tast::Ty::TParam { .. })));
+    !has_type_param
+}
+
 fn gen_type_definition(goenv: &GlobalGoEnv) -> Vec<goast::Item> {
     let mut defs = Vec::new();
     for (name, def) in goenv.structs() {
-        let has_type_param = name.0.contains("TParam")
-            || !def.generics.is_empty()
-            || def
-                .fields
-                .iter()
-                .any(|(_, ty)| matches!(ty, tast::Ty::TParam { .. }));
-        if has_type_param {
+        if !struct_def_is_emitted(name, def) {
             continue;
         }
 
@@ -2396,13 +2434,7 @@ fn gen_type_definition(goenv: &GlobalGoEnv) -> Vec<goast::Item> {
     }
 
     for (name, def) in goenv.enums() {
-        // Skip generating Go types for generic-specialized enums whose fields still contain type parameters
-        let has_type_param = name.0.contains("TParam")
-            || def
-                .variants
-                .iter()
-                .any(|(_, fields)| fields.iter().any(|f| matches!(f, tast::Ty::TParam { .. })));
-        if has_type_param {
+        if !enum_def_is_emitted(name, def) {
             continue;
         }
         let type_identifier_method = format!("is{}", go_ident(&name.0));
